@@ -327,6 +327,15 @@ class ModuleState:
             for m, k, v in cls._targets():
                 cls._snap[(m.__name__, k)] = (v, type(v)(v))
             cls._scalars = {}
+            # module-level instances of the repository's own classes (pools, registries as objects): their attributes
+            import enum as _enum
+
+            cls._objects = []
+            for n, m in list(sys.modules.items()):
+                if m is not None and (n == "dpapi_ng" or n.startswith("dpapi_ng.")):
+                    for k, v in list(vars(m).items()):
+                        if (type(v).__module__ or "").startswith("dpapi_ng") and hasattr(v, "__dict__") and not isinstance(v, (type, types.FunctionType, types.ModuleType, _enum.Enum)):
+                            cls._objects.append((v, cls._copy_attrs(v.__dict__)))
             for n, m in list(sys.modules.items()):
                 if m is not None and (n == "dpapi_ng" or n.startswith("dpapi_ng.")):
                     for k, v in list(vars(m).items()):
@@ -334,8 +343,50 @@ class ModuleState:
                             cls._scalars[(n, k)] = v
 
     @classmethod
+    def capture(cls):
+        """the current module-level state of the library (what a fork() would duplicate): containers, rebound scalars, attributes of module-level objects"""
+        import enum as _enum
+
+        snap = dict(containers={}, scalars={}, objects=[])
+        for n, m in list(sys.modules.items()):
+            if m is not None and (n == "dpapi_ng" or n.startswith("dpapi_ng.")):
+                for k, v in list(vars(m).items()):
+                    if k.startswith("__"):
+                        continue
+                    if isinstance(v, (dict, list, set)):
+                        snap["containers"][(n, k)] = (v, type(v)(v))
+                    elif isinstance(v, cls.SCALAR):
+                        snap["scalars"][(n, k)] = v
+                    elif (type(v).__module__ or "").startswith("dpapi_ng") and hasattr(v, "__dict__") and not isinstance(v, (type, types.FunctionType, types.ModuleType, _enum.Enum)):
+                        snap["objects"].append((v, cls._copy_attrs(v.__dict__)))
+        return snap
+
+    @classmethod
+    def apply(cls, snap):
+        for (n, k), (obj, copy_) in snap["containers"].items():
+            obj.clear()
+            (obj.update if isinstance(obj, (dict, set)) else obj.extend)(type(obj)(copy_))
+            setattr(sys.modules[n], k, obj)
+        for (n, k), v in snap["scalars"].items():
+            if vars(sys.modules[n]).get(k, v) is not v:
+                setattr(sys.modules[n], k, v)
+        for obj, attrs in snap["objects"]:
+            obj.__dict__.clear()
+            obj.__dict__.update(cls._copy_attrs(attrs))
+
+    @staticmethod
+    def _copy_attrs(d):
+        return {k: (type(v)(v) if isinstance(v, (dict, list, set, bytearray)) else v) for k, v in d.items()}
+
+    @classmethod
     def restore(cls):
         cls.snapshot()
+        for obj, attrs in cls._objects:
+            try:
+                obj.__dict__.clear()
+                obj.__dict__.update(cls._copy_attrs(attrs))
+            except Exception:
+                pass
         # functools.lru_cache / cache wrappers keep state between calls: empty them
         for n, m in list(sys.modules.items()):
             if m is not None and (n == "dpapi_ng" or n.startswith("dpapi_ng.")):
